@@ -548,7 +548,14 @@ impl Expr {
 				let mut right_expressions = vec![];
 				while let Some(op_pair) = expr.next() {
 					let op = BoolOp::bool_op_from_rule(op_pair);
-					let mut right_pair = expr.next().unwrap().into_inner();
+					let operand = expr.next().unwrap();
+					if matches!(operand.as_rule(), Rule::bool_expr_single) {
+						// A whole comparison on the right: keep it whole
+						let right = Self::from_rule(operand);
+						right_expressions.push((op,false,Box::new(right)));
+						continue
+					}
+					let mut right_pair = operand.into_inner();
 					let mut right_expr = right_pair.next().unwrap();
 					let mut right_negated = false;
 					if let Rule::not = right_expr.as_rule() {
